@@ -207,6 +207,46 @@ class CopyVariable(Contract):
 CONTRACTS += [CopyVariable(1), CopyVariable(3), CopyVariable(2, False)]
 
 
+# ---------------------------------------------------------------------------
+# isolation of whole operations, for files of arbitrary size: the operation contracts of C02 / C03 / C04 / C06 are re-run
+# with the C05 post-condition only -- the result is a new file, its variables own fresh buffers (writing the result can
+# never change an input) and every input is unchanged (values, masks, dimension lengths, variable objects)
+# ---------------------------------------------------------------------------
+
+_ISOLATION = ('is-a-new-file', 'fresh-buffer', 'fresh-buffers', 'input-unchanged', 'inputs-unchanged')
+
+
+def _isolation_variant(base, label):
+    class ISO(base):
+        prop = 'C05'
+
+        def ensures(self, inp, res, I):
+            cl = [c_ for c_ in base.ensures(self, inp, res, I) if any(c_[0] == k or c_[0].endswith('-' + k) or c_[0].endswith(k) for k in _ISOLATION)]
+            return cl or [('isolation clauses present', False)]
+
+        def on_raise(self, inp, exc, I):
+            return []          # whether the call may raise is not an isolation question
+
+        def replay(self, c):
+            return None
+    ISO.__name__ = 'ISO_' + base.__name__
+    ISO.__doc__ = 'isolation of %s: new file, fresh buffers, inputs unchanged (files of arbitrary size)' % label
+    return ISO
+
+
+def _isolation_contracts():
+    from . import C02, C03, C04, C06
+    S, A, K = _isolation_variant(C02.SliceBasic, 'sliceDimensions'), _isolation_variant(C03.ApplyAlong, 'applyAlongDimensions'), _isolation_variant(C04.Stack, 'stack')
+    B, M = _isolation_variant(C06.Pncbo, 'pncbo'), _isolation_variant(C06.MaskMethod, 'mask')
+    out = [S('int'), S('slice'), S('reversed'), S('index-array'), A([('t', 'mean')]), A([('t', 'max'), ('y', 'max')]), K(2), K(3), B('*'), M(('greater', 'less_equal'))]
+    for c in out:
+        c.name = 'isolation of ' + c.name
+    return out
+
+
+CONTRACTS += _isolation_contracts()
+
+
 def bounded(tier, seed):
     from rtc import harness as H, ops
     import numpy as np
@@ -350,8 +390,9 @@ def bounded_replay(p):
 
 META = dict(
     level='other',
-    technique='frame conditions and handle type-state proved by pyvc (z3); bounded run-time snapshots for numpy-level aliasing',
-    text='Proved for all inputs: getTimes does not write the TFLAG variable, val2idx does not write the coordinate variable (any '
+    technique='frame conditions (single functions and five whole operations) and handle type-state proved by pyvc (z3); bounded run-time snapshots for the remaining operations and numpy-level aliasing',
+    text='Proved for files of ANY size: sliceDimensions (4 selector kinds), applyAlongDimensions, stack (2, 3 files), pncbo and mask return a NEW file whose variables own fresh buffers and leave every '
+         'input unchanged (values, masks, dimension lengths). Proved for all inputs: getTimes does not write the TFLAG variable, val2idx does not write the coordinate variable (any '
          'coordinate, any query), netcdf.close/__del__ close the libnetcdf handle at most once from every handle state. Bounded: '
          'snapshot/alias checks of every catalogue operation and enumerated open/close/del/gc interleavings.',
     note='numpy view-vs-copy table and the netCDF4 handle protocol are trusted contracts; garbage-collector schedules are replaced by '
